@@ -74,6 +74,16 @@ CLAIMS = {
         "levels from 256 to 2^64-1 are verified by libksi under the internal policy; the verdict must lie in Allowed (never OK).",
    note="The five anchor-based verifying policies are exercised with document contexts by C04's environment once built; until then C02 binds the internal policy only.",
    technique="TLC-checked rule-tree model + exhaustive context table and bit-flip enumeration replayed into libksi"),
+ "C10": dict(level="model_checking", design_ref="DESIGN.md 4/C10",
+   text="Schema.tla restates the KSI schema of signatures and aggregation / extension response PDUs (v2) as data with a declarative Accept (mandatory, "
+        "single-valued, exclusive and at-least-one groups, first/last among known elements, cross rules of the signature container, unknown critical => "
+        "reject, unknown non-critical => ignored) and value well-formedness per kind; TLC evaluates Accept on every local edit (delete, duplicate, duplicate "
+        "flagged non-critical before/after, swap, retag, re-flag, insert/append unknown of either criticality, resize to every value class) at every tree "
+        "position of six valid base objects; every mutated object is concretised and offered to the typed parsers, accept/reject must agree. Second half: an "
+        "unknown non-critical element inserted at every position of reference-built consistent signatures must leave parsing, re-serialization and the "
+        "internal verdict unchanged outside hashed/signed content.",
+   note="Families: signature, aggregation response PDU v2 (response / error / config payloads), extension response PDU v2; v1 PDUs and the publications file are not in the table yet. 1.9e3 mutated objects + insertions at every position of 3/25 signatures. Defects F-C10-1 and F-C12-2 fixed.",
+   technique="TLC-evaluated declarative schema over TLC-enumerated mutations, replayed into the typed parsers of libksi"),
 }
 for e in ENGINES:
     e["serves_properties"] = sorted(CLAIMS)
